@@ -767,6 +767,9 @@ func (g *Gen) prepass() {
 			}
 		}
 	}
+	for _, srt := range []string{"Int", "Bool", "Ptr", "Slice", "Iface", "GInt"} {
+		g.heapFor(srt)
+	}
 	for _, p := range g.fn.Params {
 		reg(p.Type(), 0)
 	}
@@ -923,4 +926,68 @@ func (g *Gen) autoInvs(l *Loop, subst map[ssa.Value]string) []string {
 		}
 	}
 	return out
+}
+
+// InvariantWriterObligations: for every `invariant-writers T props ...` directive naming prop, each function of the
+// repository that allocates a T, stores a T, or stores into a field of a T must be under a (non-trusted) contract
+// tagged with prop. A writer outside the contracts is a failing obligation: the representation invariant of T is
+// only as good as the list of functions that establish it, so that list is computed from the code on every run.
+func InvariantWriterObligations(P *Program, db *SpecDB, prop string) *FuncResult {
+	r := &FuncResult{Key: "invariant-writers", Pos: "contracts", NoLemmas: true}
+	for _, iw := range db.InvWriters {
+		use := false
+		for _, p := range iw.Props {
+			if p == prop {
+				use = true
+			}
+		}
+		if !use {
+			continue
+		}
+		isT := func(t types.Type) bool {
+			n, ok := t.(*types.Named)
+			if !ok || n.Obj().Pkg() == nil {
+				return false
+			}
+			return ShortName(n.Obj().Pkg().Path())+"."+n.Obj().Name() == iw.Type
+		}
+		ptrT := func(t types.Type) bool {
+			p, ok := t.Underlying().(*types.Pointer)
+			return ok && isT(p.Elem())
+		}
+		for _, k := range P.SortedFuncKeys() {
+			fn := P.Funcs[k]
+			why := ""
+			for _, b := range fn.Blocks {
+				for _, in := range b.Instrs {
+					switch in := in.(type) {
+					case *ssa.Alloc:
+						if ptrT(in.Type()) {
+							why = "allocates a " + iw.Type
+						}
+					case *ssa.Store:
+						if isT(in.Val.Type()) {
+							why = "stores a " + iw.Type
+						}
+						if fa, ok := in.Addr.(*ssa.FieldAddr); ok && ptrT(fa.X.Type()) {
+							why = "writes a field of a " + iw.Type
+						}
+					}
+				}
+			}
+			if why == "" {
+				continue
+			}
+			goal := "false"
+			if s := db.Funcs[k]; s != nil && !s.Trusted && hasProp(s, prop) {
+				goal = "true"
+			}
+			r.Obls = append(r.Obls, &Obl{Name: "invariant-writers:" + iw.Type + ":" + k, Kind: "invariant-coverage", Func: r.Key,
+				Goal: goal, Pos: P.SSA.Fset.Position(fn.Pos()).String() + " (" + why + ")"})
+		}
+	}
+	if len(r.Obls) == 0 {
+		return nil
+	}
+	return r
 }
